@@ -1054,7 +1054,7 @@ class SupportComplexDataType(Element):
             # TODO: Are we sure that self.dataype == None can accept 'varies' child?
             if self.datatype in (None, 'varies') and _valid_child_name(child.name, 'varies'):
                 return True
-            if self.datatype is None and _valid_child_name(self.name, 'varies') and child.is_unknown():
+            if self.datatype in (None, 'varies') and _valid_child_name(self.name, 'varies') and child.is_unknown():
                 return True
             if child.is_unknown() and Validator.is_strict(self.validation_level):
                 return False
